@@ -633,7 +633,7 @@ def run_shard(desc: dict, col) -> None:  # noqa: ANN001
     for i, case in enumerate(all_cases(desc["tier"], desc["seed"])):
         if i % desc["of"] == desc["shard"]:
             guarded(col, case, judge, case, col)
-            if col.violation_count >= 6:
+            if getattr(col, "unclassified_count", 0) >= 6:
                 break
 
 
